@@ -33,6 +33,8 @@ Allowed(c) ==
       [] c \in {"compressed_flag_no_codec", "bad_compressed_block"} -> {"error", "closed"}
       [] c \in {"bad_string_len", "bad_map_len", "bad_batch_count", "empty_execute_id", "bad_consistency"} -> {"error", "closed", "answered"}
       [] c \in {"hostile_use", "hostile_prepare_ks", "hostile_query_text", "hostile_register", "hostile_startup", "hostile_auth"} -> {"error", "closed", "answered"}
+      \* a peer that sends valid frames only but never reads what it is sent, and hangs up with everything outstanding
+      [] c = "nonreader_flood" -> {"closed"}
       [] c \in FieldClasses -> {"error", "closed", "answered"}
       [] c \in BackendClasses -> {"error", "closed", "answered", "nothing"}
       [] OTHER -> {"error", "closed", "answered", "nothing"}
